@@ -244,6 +244,9 @@ func runReconsider(k *mon.Case) {
 	k.Eval(mon.Sig("recon", fam, len(s.Ops), s.Tip.Hash.String()[:8]), true)
 }
 
+// runFan: see sim.ScenarioFan.
+func runFan(k *mon.Case) { sim.ScenarioFan(k, famOf(k.Rand)) }
+
 // faultDB fails one View call (a database read) when armed: the skip-th call after arming.
 type faultDB struct {
 	database.DB
@@ -382,6 +385,9 @@ func main() {
 		c.Family("tree", c.N(400, 20000), func(k *mon.Case) { runTree(k, false) })
 		c.Family("manual", c.N(300, 12000), func(k *mon.Case) { runTree(k, true) })
 		c.Family("reconsider", c.N(56, 2000), runReconsider)
+		c.Family("fan", c.N(84, 3000), runFan)
+		c.Require("fan.cases", 40)
+		c.Require("fan.invalidate-above-then-below", 30)
 		c.Family("read-fault", c.N(56, 2000), runFault)
 		c.Require("fault.read_failure_fired", 20)
 		c.Require("reconsider.below_failed_descendant", 20)
